@@ -169,7 +169,7 @@ def outputs_printable(outs):
 ADV_STR = ["", "x", "y", "z", "x b=y", "y b=z", "None", "a=1", " ", "=", "x y", "x=y", "(", ")", "a)(b", "b=", " b=",
            "1", "1.0", "True", "null", '"', "'", "\\", "x  y", "a b=c d=e", "{", "#", "0", "-0.0"]
 INTS = [0, 1, -1, 2, 3, 7, 10, 255, -12, 10 ** 20, -(10 ** 18), 999999999999999]
-FLOATS = [0.0, 1.0, 1.5, -2.5, 1e-11, 1e22, 3.14159, 1e-05, 0.1, 2.0, 1e16, 123456.789, float("inf"), float("-inf"),
+FLOATS = [0.0, -0.0, 1.0, 1.5, -2.5, 1e-11, 1e22, 3.14159, 1e-05, 0.1, 2.0, 1e16, 123456.789, float("inf"), float("-inf"),
           5e-324, 1.7976931348623157e308]
 
 
@@ -377,6 +377,8 @@ def rewrite_args(r, fields, args):
         elif a[0] == "R":
             sub = rewrite_args(r, [dict(dtype=dd, default=None) for dd in d[1]], a[1]) if d[0] == "rec" and len(d[1]) == len(a[1]) else a[1]
             out.append(["R", sub, "dict" if a[2] == "inst" else "inst"])
+        elif d[0] == "float" and a[0] == "f" and a[1] in ("0.0", "-0.0") and r.random() < 0.7:
+            out.append(F(-float(a[1])))
         elif d[0] == "float" and a[0] == "f" and a[1] not in ("inf", "-inf") and float(a[1]) == int(float(a[1])) \
                 and abs(int(float(a[1]))) < 10 ** 15:
             out.append(I(int(float(a[1]))))
@@ -495,6 +497,14 @@ def corpus():
            [0, A(0, 1, S("x"), 2, ("member", "inst")), "kw"], [0, A(0, 1, S("x"), 3, ("member", "inst")), "kw"]],
           [[0, A(0, 1, S("x"), 3, ("value", "inst")), "kw"], [0, A(0, 1, S("x"), 0, ("value", "dict")), "kw"]]]
     gs.append(dict(univ=u, table=[], hists=hs, tag="shapes"))
+    # 6b. negative zero: -0.0 == 0.0 is one parameter value (readable and hashed name form)
+    u = [dict(name="G", fields=[dict(name="f", dtype=["float"], default=F(0.0))]),
+         dict(name="H", fields=[dict(name="f", dtype=["opt", ["float"]], default=None), dict(name="e", dtype=["bool"], default=["b", False])])]
+    z, nz = F(0.0), F(-0.0)
+    hs = [[[0, [nz], "kw"]], [[0, [z], "kw"]], [[1, [nz, None], "kw"]], [[1, [z, None], "inst"]],
+          [[0, [nz], "kw"], [0, [z], "inst"], [0, [I(0)], "kw"], [0, [None], "kw"], [1, [z, None], "kw"], [1, [nz, None], "kw"]],
+          [[1, [nz, None], "inst"], [1, [I(0), None], "kw"], [0, [None], "kw"], [0, [nz], "kw"], [0, [["b", False]], "kw"]]]
+    gs.append(dict(univ=u, table=[], hists=hs, tag="negative-zero"))
     gs += corpus_numbers()
     return gs
 
@@ -586,7 +596,7 @@ def exhaustive_small(quick):
     gs.append(dict(univ=u, table=[], hists=[calls, list(reversed(calls))], tag="box-opt"))
     u = [dict(name="G", fields=[dict(name="i", dtype=["int"], default=None), dict(name="f", dtype=["opt", ["float"]], default=None)])]
     vi = [I(0), I(1), ["b", True], ["b", False], I(-1), I(10 ** 20)]
-    vf = [["n"], F(0.0), F(1.0), I(1), ["b", True], I(0), F(1e-11), F(float("inf")), F(1e22), I(999999999999999)]
+    vf = [["n"], F(0.0), F(-0.0), F(1.0), I(1), ["b", True], I(0), F(1e-11), F(float("inf")), F(1e22), I(999999999999999)]
     calls = [[0, [a, b], "kw"] for a in vi for b in vf]
     gs.append(dict(univ=u, table=[], hists=[calls, list(reversed(calls))], tag="box-num"))
     # readable-name length limit: names of 124..131 characters
